@@ -22,7 +22,12 @@ RULE = ("cases = (tensor of depth 2-4 with int coordinates [or tuple coordinates
         "(depth, levels, style); 3-way collisions of sub-fibers (three upper coordinates onto one merged "
         "coordinate, absolute and relative) under the non-associative merge functions; collision-rich random "
         "tensors; compositions flatten(k', levels, tuple|pair) ; swap(k) / swizzle on the tensor that now "
-        "carries tuple coordinates. non-trivial = the input tensor has at least one non-default point")
+        "carries tuple coordinates (also flatten ; flatten). Operand variations: rank format U on any rank "
+        "(small scope: every depth-2 tensor x {CU, UC, UU}; random mixes; judged by the content "
+        "specification), declared shape larger than needed, fibers built with a default other than the "
+        "tensor's, float values with float / non-integral defaults, multi-digit coordinates 2<9<10<100; "
+        "side conditions on a subset: same call twice gives the same result, operand unchanged; on every "
+        "case: no object reachable twice in a result and none shared with the operand. non-trivial = the input tensor has at least one non-default point")
 
 STYLES_INJ = ["tuple", "pair"]
 # merge functions: sum (the default), max, and two that are neither associative nor decomposable
@@ -75,6 +80,9 @@ def _compositions(D):
                 for k in (kf - 1, kf):       # swap the tuple rank with its upper / lower neighbour
                     if 0 <= k and k + 1 <= D2 - 1:
                         out.append([fl, {"op": "swap", "k": k}])
+                for k2 in (kf - 1, kf):      # flatten again, the tuple rank being the lower / the upper one
+                    if 0 <= k2 and k2 + 1 <= D2 - 1:
+                        out.append([fl, {"op": "flatten", "k": k2, "levels": 1, "style": "tuple"}])
                 if D2 >= 2 and st == "tuple":
                     perm = list(range(D2))
                     perm[kf], perm[(kf + 1) % D2] = perm[(kf + 1) % D2], perm[kf]
@@ -206,6 +214,78 @@ def gen(seed, tier):
         else:
             pipe = rng2.choice(comps[D])
         yield _case(t, D, dflt, pipe, shape=([n] * D if rng2.random() < 0.3 else None))
+    # --- rank format "U" on the operand, small scope: every depth-2 tensor x {CU, UC, UU}
+    upipes = [[{"op": "flatten", "k": 0, "levels": 1, "style": "tuple"}, {"op": "unflatten", "k": 0, "levels": 1}],
+              [{"op": "flatten", "k": 0, "levels": 1, "style": "linear"}],
+              [{"op": "swap", "k": 0}, {"op": "swap", "k": 0}],
+              [{"op": "swizzle", "perm": [1, 0]}, {"op": "swizzle", "perm": [1, 0]}]]
+    for t in _small_depth2([0, 1, 2]):
+        for fmt in (["C", "U"], ["U", "C"], ["U", "U"]):
+            for pipe in upipes:
+                lin = pipe[0].get("style") == "linear"
+                c = _case(t, 2, 0, pipe, shape=([2, 2] if lin or rng2.random() < 0.5 else None))
+                c["fmt"] = fmt
+                yield c
+    # the default elements a "U" leaf rank presents take part in merges (open finding): kept to this
+    # family — sparse depth-2 tensors, lower rank "U", colliding styles
+    for t in list(_small_depth2([0, 1]))[:40]:
+        for pipe in ([{"op": "merge", "k": 0, "levels": 1, "style": "absolute", "mf": "mix"}],
+                     [{"op": "flatten", "k": 0, "levels": 1, "style": "relative"}]):
+            c = _case(t, 2, 0, pipe, shape=[2, 2])
+            c["fmt"] = ["C", "U"]
+            c["ucollide"] = True
+            yield c
+    # --- variations of the operand: formats, declared shape larger than needed, fibers built with a
+    #     default other than the tensor's, float values and default, multi-digit coordinates
+    #     (9 < 10 < 100), the same call twice
+    allp = {D: pipes[D] for D in (2, 3, 4)}
+    cmaps = {0: 2, 1: 9, 2: 10, 3: 100}
+    for i in range(1800 if tier == "quick" else 40000):
+        D = rng2.choice([2, 3, 3, 4])
+        dflt = rng2.choice([0, 0, 7])
+        n = rng2.choice([2, 3, 4]) if D < 4 else rng2.choice([2, 3])
+        pool = (1, 2, -3, 5) if dflt == 0 else (1, 2, -3, 0, 0)
+        t = H.gen_tree(rng2, D, n, pool, dflt) if rng2.random() < 0.7 else \
+            H.gen_tree(rng2, D, n, pool, dflt, 0.2, 0.1, 0.1, 0.05)
+        pipe = rng2.choice(allp[D])
+        lin = pipe[0].get("style") == "linear"
+        c = _case(t, D, dflt, pipe)
+        ext = n
+        v = rng2.random()
+        if v < 0.30:
+            # ops under which the default elements a "U" rank presents cannot collide
+            safe = [pp for pp in allp[D] if all(
+                o["op"] in ("swizzle", "swap", "unflatten") or
+                (o["op"] in ("flatten", "merge") and o["style"] in ("tuple", "pair", "linear")) for o in pp)]
+            pipe = rng2.choice(safe)
+            lin = pipe[0].get("style") == "linear"
+            c = _case(t, D, dflt, pipe)
+            fmt = [rng2.choice("CU") for _ in range(D)]
+            if "U" not in fmt:
+                fmt[rng2.randrange(D)] = "U"
+            c["fmt"] = fmt
+        elif v < 0.45:
+            def remap(tree, depth):
+                return [[cmaps[cc], (remap(sub, depth - 1) if depth > 1 else sub)] for cc, sub in tree]
+            c["t"] = remap(t, D)
+            ext = 101
+        elif v < 0.60:
+            # float values; half of the time a non-integral float default (0.5 <-> model default 99)
+            if rng2.random() < 0.5 and not any(o.get("mf") in ("count", "mix", "max") for o in pipe):
+                def redef(tree, depth):
+                    return [[cc, (redef(sub, depth - 1) if depth > 1 else (99 if sub == dflt else sub))]
+                            for cc, sub in tree]
+                c["t"] = redef(t, D)
+                c["dflt"] = 99
+                c["vkind"] = "hdflt"
+            else:
+                c["vkind"] = "float"
+        elif v < 0.75 and dflt != 0:
+            c["fdflt"] = 0
+        if lin or rng2.random() < 0.5:
+            c["shape"] = [ext + rng2.choice([0, 0, 3])] * D
+        c["twice"] = True
+        yield c
 
 
 # ---------------------------------------------------------------------------------------
@@ -273,27 +353,88 @@ def _apply(t, op):
     raise ValueError(o)
 
 
+HALF = 0.5        # value kind "float": values are float(v); with "hdflt" the DEFAULT is 0.5 (a value no
+                  # integer-valued merge can produce) and stands for the model's integer default
+
+
+def _snap(obj, vk, dflt=None):
+    """H.snapshot (integral floats come back as integers); the non-integral default 0.5 of the
+    "hdflt" kind is mapped back to the model's default"""
+    s = H.snapshot(obj)
+    if vk != "hdflt":
+        return s
+
+    def rec(x):
+        if isinstance(x, dict) and "float" in x:
+            return dflt if float.fromhex(x["float"]) == HALF else x
+        if isinstance(x, list):
+            return [rec(y) for y in x]
+        return x
+    return rec(s)
+
+
+def _dflt_of(t, vk, dflt=None):
+    d = _default_of(t)
+    if isinstance(d, float):
+        if vk == "hdflt" and d == HALF:
+            return dflt
+        return int(d) if d.is_integer() else {"float": d.hex()}
+    return d
+
+
+def _fiber_ids(f, acc):
+    """ids of every Fiber / boxed leaf object reachable from f, with repetitions"""
+    Fiber = H.ft().Fiber
+    acc.append(id(f))
+    for p in f.payloads:
+        if isinstance(p, Fiber):
+            _fiber_ids(p, acc)
+        else:
+            acc.append(id(p))
+    return acc
+
+
 def run(case):
     ft = H.ft()
     D, dflt = case["depth"], case["dflt"]
-    root = _build(case["t"], D, dflt)
+    vk = case.get("vkind", "int")
+    if vk == "hdflt":
+        vmap = lambda v: HALF if v == dflt else float(v)
+    elif vk == "float":
+        vmap = float
+    else:
+        vmap = lambda v: v
+    fd = case.get("fdflt", dflt)            # default handed to the Fiber constructors (the tensor's wins)
+
+    def build(tree, depth):
+        F = ft.Fiber
+        if depth == 1:
+            return F([_tup(c) for c, _ in tree], [vmap(v) for _, v in tree], default=vmap(fd))
+        return F([_tup(c) for c, _ in tree], [build(sub, depth - 1) for _, sub in tree], default=vmap(fd))
+    root = build(case["t"], D)
     ids = [chr(ord("A") + i) for i in range(D)]
     if case.get("tuple_rank"):
         k, ar = case["tuple_rank"]
         ids[k] = [f"{ids[k]}{j}" for j in range(ar)]
-    kw = {"rank_ids": ids, "fiber": root, "default": dflt}
+    kw = {"rank_ids": ids, "fiber": root, "default": vmap(dflt)}
     if case.get("shape"):
         kw["shape"] = [_tup(x) for x in case["shape"]]
     cur = ft.Tensor.fromFiber(**kw)
+    fmt = case.get("fmt")
+    if fmt:
+        for rid, f in zip(ids, fmt):
+            cur.setFormat(rid, f)
     shape = case.get("shape")
     stages, side = [], {}
-    first = (H.snapshot(cur.getRoot()), _default_of(cur), D)
+    first = (_snap(cur.getRoot(), vk, dflt), _dflt_of(cur, vk, dflt), D)
     ok = True
     for i, op in enumerate(case["ops"]):
         st = dict(op)
-        st["in"] = H.snapshot(cur.getRoot())
-        st["dflt"] = _default_of(cur)
+        st["in"] = _snap(cur.getRoot(), vk, dflt)
+        st["dflt"] = _dflt_of(cur, vk, dflt)
         st["depth"] = len(cur.getRankIds())
+        if fmt and "U" in fmt:
+            st["formatU"] = True
         if shape and i == 0 and not case.get("tuple_rank"):
             st["shape"] = shape
         if op["op"] == "unflatten":
@@ -302,18 +443,34 @@ def run(case):
             ids_ = cur.getRankIds()
             st["ids_mixed"] = any(isinstance(x, list) for x in ids_) and any(not isinstance(x, list) for x in ids_)
         try:
+            in_int = op["op"] in ("flatten", "merge") and all(
+                _nesting(c) == "int" for j in range(op["levels"] + 1) for c in _coords_at(cur.getRoot(), op["k"] + j))
             nxt = _apply(cur, op)
-            out = {"tree": H.snapshot(nxt.getRoot()), "dflt": _default_of(nxt), "depth": len(nxt.getRankIds())}
+            out = {"tree": _snap(nxt.getRoot(), vk, dflt), "dflt": _dflt_of(nxt, vk, dflt), "depth": len(nxt.getRankIds())}
             m = H.rank_mirror(nxt)
             if m:
                 side[f"rank_mirror[{i}:{op['op']}]"] = False
-            if op["op"] in ("flatten", "merge") and op["style"] in ("tuple", "pair"):
+            if in_int and op["style"] in ("tuple", "pair"):
                 want = {"tuple": "flat", "pair": "pair"}[op["style"]]
                 got = {_nesting(c) for c in _coords_at(nxt.getRoot(), op["k"])}
                 if op["style"] == "pair" and op["levels"] == 1:
                     want = "flat"          # a pair of two ints is a flat 2-tuple
                 if got - {want}:
                     side[f"coord_nesting[{op['style']}]"] = False
+            # a result is a tree: no fiber / leaf box is reachable through two positions, and none of
+            # them is an object of the operand
+            rids = _fiber_ids(nxt.getRoot(), [])
+            if len(set(rids)) != len(rids):
+                side[f"no_shared_objects[{i}:{op['op']}]"] = False
+            if set(rids) & set(_fiber_ids(cur.getRoot(), [])):
+                side[f"fresh_result[{i}:{op['op']}]"] = False
+            if case.get("twice"):
+                # the operand is left as it was, and the same call gives the same result again
+                if _snap(cur.getRoot(), vk, dflt) != st["in"] or _dflt_of(cur, vk, dflt) != st["dflt"]:
+                    side[f"operand_unchanged[{i}:{op['op']}]"] = False
+                again = _apply(cur, op)
+                if _snap(again.getRoot(), vk, dflt) != out["tree"] or _dflt_of(again, vk, dflt) != out["dflt"]:
+                    side[f"repeatable[{i}:{op['op']}]"] = False
         except Exception as e:
             out = {"err": H.err_class(e)}
             nxt = None
@@ -327,7 +484,7 @@ def run(case):
     case["impl"] = [s["out"] for s in stages]
     if ok and len(case["ops"]) == 2 and len(cur.getRankIds()) == D:
         case["roundtrip"] = {"depth": D, "first": first[0], "first_dflt": first[1],
-                             "last": H.snapshot(cur.getRoot()), "last_dflt": _default_of(cur)}
+                             "last": _snap(cur.getRoot(), vk, dflt), "last_dflt": _dflt_of(cur, vk, dflt)}
     case["side"] = side
     return case
 
@@ -351,6 +508,8 @@ def signature(case, verdict, failed):
     agree = bool(verdict.get("agree"))
     tags = set(verdict.get("tags", []))
     fs = _failing_stage(case)
+    if failed == ["spec"] and case.get("ucollide") and "formatU" in tags:
+        return "merge:formatU:default-elements-take-part"
     if failed == ["spec"] and agree:
         if fs is not None and fs["op"] == "swizzle" and fs["out"]["err"] == "ERR:TypeError" and "mixedRankIds" in tags:
             return "swizzle:flattened-rank-ids:TypeError"
